@@ -115,7 +115,7 @@ def _hull2d_strict(pts2):
 def strict_hull_vertices(P):
     """Extreme points of P (drops points inside, on facets or on edges). Integer-safe."""
     P = np.asarray(P, float)
-    h = geom.hull_facets(P)
+    h = geom.hull_facets(P, check=False)      # P may contain points inside facets / on edges: they are what is pruned here
     keep = set()
     for f, nrm in zip(h.facets, h.normals):
         k = int(np.argmax(np.abs(nrm)))
@@ -242,6 +242,11 @@ def convex_case(rng, tabulated_frac=0.1):
         P = P - (P[i] + P[j]) / 2
         c["origin_on_boundary"] = "segment-midpoint"
         ratio = 0.0
+    if not c.get("exact") and rng.random() < 0.06:
+        # particles given in very small or very large units (nanometres in metres ...): every C01 quantity is homogeneous
+        unit = float(10 ** rng.uniform(-9, 6))
+        P = P * unit
+        c["unit"] = unit
     perm = rng.permutation(len(P))
     c.update({"P": P[perm], "offset_ratio": ratio, "size": diameter(P)})
     return c
@@ -371,6 +376,20 @@ def polygon_case(rng, allow_tilt=True, kind=None):
     plane_n = np.array([0.0, 0.0, 1.0])
     if tilt:
         R = random_rotation(rng)
+        if rng.random() < 0.3:
+            # nearly, but not exactly, parallel to a coordinate plane: tilt of 1e-6..3e-2 rad about an in-plane axis,
+            # optionally followed by a quarter turn that brings the normal near x or y instead of z
+            ang = float(10 ** rng.uniform(-6, -1.5))
+            ax_ = np.append(random_unit(rng, 2), 0.0)
+            K = np.array([[0, -ax_[2], ax_[1]], [ax_[2], 0, -ax_[0]], [-ax_[1], ax_[0], 0]])
+            R = np.eye(3) + math.sin(ang) * K + (1 - math.cos(ang)) * K @ K
+            q = int(rng.integers(4))
+            if q == 1:
+                R = np.array([[0, 0, 1.0], [0, 1, 0], [-1, 0, 0]]) @ R
+            elif q == 2:
+                R = np.array([[1.0, 0, 0], [0, 0, -1], [0, 1, 0]]) @ R
+            elif q == 3:
+                R = np.diag([1.0, -1.0, -1.0]) @ R
         t = random_unit(rng) * float(rng.choice([0, 0.5, 3.0])) * diameter(V)
         V = V @ R.T + t
         plane_n = R @ plane_n
